@@ -3,6 +3,7 @@ package harness
 import (
 	"context"
 	"fmt"
+	"os"
 	"strings"
 	"testing"
 
@@ -99,6 +100,63 @@ func TestC07EnumBadValues(t *testing.T) {
 			}}
 			paths := runC07(t, c)
 			classifyC07(c, paths)
+		}
+	}
+}
+
+// c07CostHashes: hex bcrypt hashes of "pw-alpha" by work factor (the generated worlds use factor 4 for speed;
+// production hashes are made with 10 and more, and one comparison at 15 takes seconds).
+var c07CostHashes = map[int]string{
+	10: "24326124313024734259416c6b4b515566654c686c636d4b67414f782e5737633549673264346f2e726f38533778557669766e4668316f7254497453",
+	12: "2432612431322453352f6c2f6e6273554443467a51684d6b30397a424f5075477a4b4d337331456a5951374a4143466678662e6e623745435570474b",
+	14: "243261243134246f6f766f4853646b3556334c58366732414d6b71632e7334323750757a33566f694b41544c534c424854755165326b7a76516b5a32",
+	15: "24326124313524367453344b78506e6933774e35786a4c6e6435366f4f33716f385872634273496a4e66664879474d675455436b6e6f616a42476b75",
+	16: "24326124313624586f4c6e6a342e316355626173325a51576d4464334f4d6657742f384676664f5447524e705a54364a2e54655073376a2e35504d6d",
+	17: "243261243137246c566c354a394c6834483547457868762e48664363653378764444697873782f4e524f6250577739416e393041444f342f716f4d53",
+}
+
+// TestC07EnumCosts: logins (PAP with the right and a wrong password, ASCII) of users whose hash was made
+// with a realistic or a high work factor, from the option and from the keychain: one reply each.
+func TestC07EnumCosts(t *testing.T) {
+	costs := []int{10, 12, 15}
+	if os.Getenv("VERIF_TIER") == "thorough" {
+		costs = []int{10, 12, 14, 15, 16, 17}
+	}
+	for _, cost := range costs {
+		for _, viaKeychain := range []bool{false, true} {
+			if viaKeychain && cost > 12 && cost != 15 {
+				continue
+			}
+			var w cfggen.World
+			w.Keychain = map[string]string{}
+			w.Cfg.Secrets = []cfggen.Secret{cfggen.NewSecret(cfggen.ScopeA, cfggen.KeyA, cfggen.PrefixA)}
+			auth := &cfggen.Authenticator{Type: cfggen.AuthnBcrypt, Options: map[string]string{"hash": c07CostHashes[cost]}}
+			if viaKeychain {
+				auth = &cfggen.Authenticator{Type: cfggen.AuthnBcrypt, Options: map[string]string{"key": "alice-hash", "group": "g"}}
+				w.Keychain["alice-hash"] = c07CostHashes[cost]
+			}
+			w.Cfg.Users = []cfggen.User{{Name: "alice", Scopes: []string{cfggen.ScopeA}, Authenticator: auth}}
+			pap := func(pw string) model.B {
+				return model.AuthenStart{Action: 1, Priv: 1, AType: 2, Service: 1, User: b("alice"), Port: b("tty0"), RemAddr: b("r"), Data: b(pw)}.Encode()
+			}
+			steps := []c07Step{
+				{Path: fmt.Sprintf("authen:pap-cost-%d", cost), Type: 1, Minor: 1, Sess: 0, SeqMode: "next", Body: pap("pw-alpha")},
+				{Path: fmt.Sprintf("authen:pap-cost-%d", cost), Type: 1, Minor: 1, Sess: 1, SeqMode: "next", Body: pap("pw-alpha"), Tail: "author"},
+			}
+			if cost <= 14 {
+				steps = append(steps,
+					c07Step{Path: fmt.Sprintf("authen:pap-wrong-cost-%d", cost), Type: 1, Minor: 1, Sess: 2, SeqMode: "next", Body: pap("pw-bravo")},
+					c07Step{Path: fmt.Sprintf("authen:ascii-cost-%d", cost), Type: 1, Sess: 0, SeqMode: "next", Body: model.AuthenStart{Action: 1, Priv: 1, AType: 1, Service: 1, User: b("alice"), Port: b("tty0"), RemAddr: b("r")}.Encode()},
+					c07Step{Path: fmt.Sprintf("authen:ascii-cost-%d", cost), Type: 1, Sess: 0, SeqMode: "next", Body: model.AuthenContinue{UserMsg: b("pw-alpha")}.Encode()},
+				)
+			}
+			c := c07Case{World: w, Format: "yaml", Steps: steps}
+			paths := runC07(t, c)
+			if len(paths) != len(steps) {
+				t.Fatalf("HARNESS-BUG: the work-factor case did not run (%d of %d steps)", len(paths), len(steps))
+			}
+			classifyC07(c, paths)
+			ev.Class(fmt.Sprintf("bcrypt-work-factor:%d", cost))
 		}
 	}
 }
